@@ -102,7 +102,10 @@ except ValueError as e:
     failed = True
     print("step 3 raised:", e)
 writes_after_3 = list(PUTS)
-client.get_national_summary_votes_estimates(None, 0, [0.9])
+try:
+    client.get_national_summary_votes_estimates(None, 0, [0.9])
+except client_module.ModelClientException as e:  # (added when filing the reproducer: the repaired client refuses the stale summary)
+    print("step 4 refused:", e)
 writes_after_4 = list(PUTS)
 
 print("remote writes after step 1:", writes_after_1)
